@@ -94,34 +94,57 @@ def do_command(root, cmd, clock_t, archives, check):
         argv = ["run", "//:e2", "--again"] + (["-j", "2"] if cmd == "ok-j2" else [])
         from .. import vk as vkmod
         vk = vkmod.VK(behaviours=explore.behaviours_from_json(beh), project_root=root)
-        m = driver.mods()
         at_commit = {}
         known = {(r[0], r[1]) for r in rows_before}
-        import conductor.utils.output_handler as ohmod
-        VI, OH = m["vindex"].VersionIndex, ohmod.OutputHandler
-        real_commit, real_finish = VI.commit_changes, OH.finish
+        import concurrent.futures as cf
+        import sqlite3
+        busy = []
 
-        def commit_changes(self_):
-            real_commit(self_)
-            t = None
-            for r in hist.rows(root) or []:
-                if (r[0], r[1]) in known:
-                    continue
-                known.add((r[0], r[1]))
-                if t is None:
-                    t = hist.data_tree(root)
-                d = os.path.join(r[0][2:].split(":")[0], "%s.task.%d" % (r[0].split(":")[1], r[1]))
-                at_commit[d] = hist.subtree(t, d)
+        def observe_commit():
+            """Right after a transaction commits: remember what the directory of every newly recorded version looks like."""
+            if busy:
+                return
+            busy.append(1)
+            try:
+                t = None
+                for r in hist.rows(root) or []:
+                    if (r[0], r[1]) in known:
+                        continue
+                    known.add((r[0], r[1]))
+                    if t is None:
+                        t = hist.data_tree(root)
+                    d = os.path.join(r[0][2:].split(":")[0], "%s.task.%d" % (r[0].split(":")[1], r[1]))
+                    at_commit[d] = hist.subtree(t, d)
+            finally:
+                busy.pop()
 
-        def finish(self_):
+        class ObservedConnection(sqlite3.Connection):
+            def commit(self_):
+                super().commit()
+                observe_commit()
+
+            def __exit__(self_, et, ev, tb):
+                r = super().__exit__(et, ev, tb)
+                if et is None:
+                    observe_commit()
+                return r
+
+        real_connect, real_result = sqlite3.connect, cf.Future.result
+
+        def connect(*a, **kw):
+            kw.setdefault("factory", ObservedConnection)
+            return real_connect(*a, **kw)
+
+        def result(self_, timeout=None):
+            # Conductor starts waiting for a background job (the tee threads): the lingering grandchildren exit now
             vk.release_lingering()
-            return real_finish(self_)
+            return real_result(self_, timeout)
 
-        VI.commit_changes, OH.finish = commit_changes, finish
+        sqlite3.connect, cf.Future.result = connect, result
         try:
             res = driver.run_cli(argv, root, vk=vk, git=fakegit.NO_GIT, clock=ck, timeout=30)
         finally:
-            VI.commit_changes, OH.finish = real_commit, real_finish
+            sqlite3.connect, cf.Future.result = real_connect, real_result
         if getattr(res, "timed_out", False):
             check("run:hang", "cond run did not come back within 30 s")
         t_end = hist.data_tree(root)
